@@ -14,6 +14,7 @@ CheckLayout(e) ==
   /\ Judge("C18", "NoPanic", e.enc.t # "panic" /\ e.dec.t # "panic" /\ e.decwrong.t # "panic", <<e.enc, e.dec.t, e.decwrong.t>>, L)
   /\ Judge("C18", "NoPanicZeroValue", e.enczero.t # "panic", e.enczero, L)     \* unset addresses, nil slices / pointers
   /\ Judge("C18", "EncodeExact", e.enc.t = "ok" /\ EncodedOK(L, 23, e.vals, e.enc.b), e.enc, <<L, e.vals>>)
+  /\ Judge("C18", "EncodeViaPointer", e.encptr = e.enc, e.encptr, e.enc)      \* Marshal(&msg) = Marshal(msg)
   /\ (IF e.enc.t = "ok"
         THEN /\ Judge("C18", "RoundTrip", e.dec.t = "ok" /\ e.dec.v = e.vals, e.dec, e.vals)
              /\ Judge("C18", "NoAlias", ~e.aliased, L, "decoded values share no memory with the input buffer")
